@@ -43,11 +43,14 @@ def match(string, like_name, fuzzy=False):
 
 
 def sorted_definitions(defs):
+    # The api type comes last: it only decides the order of definitions that
+    # are at the same place, like a class and an instance of that class.
     # Note: `or ''` below is required because `module_path` could be
     return sorted(defs, key=lambda x: (str(x.module_path or ''),
                                        x.line or 0,
                                        x.column or 0,
-                                       x.name))
+                                       x.name,
+                                       x._name.api_type))
 
 
 def get_on_completion_name(module_node, lines, position):
